@@ -494,6 +494,11 @@ impl<T: RealNumber> DecisionTreeClassifier<T> {
         if mtry < n_attr {
             variables.shuffle(rng);
         }
+        #[cfg(smartcore_verif)]
+        VERIF_TREE_VARS.with(|v| {
+            v.borrow_mut()
+                .push((visitor.node, variables.iter().take(mtry).cloned().collect()))
+        });
 
         for variable in variables.iter().take(mtry) {
             self.find_best_split(
@@ -643,6 +648,30 @@ impl<T: RealNumber> DecisionTreeClassifier<T> {
         }
 
         true
+    }
+}
+
+#[cfg(smartcore_verif)]
+thread_local! {
+    /// verification hook: (node id, features tried in order) of every split search that reached the feature loop
+    pub static VERIF_TREE_VARS: std::cell::RefCell<Vec<(usize, Vec<usize>)>> = std::cell::RefCell::new(Vec::new());
+}
+
+#[cfg(smartcore_verif)]
+impl<T: RealNumber> DecisionTreeClassifier<T> {
+    /// verification hook: `fit_weak_learner` with explicit sample counts, `mtry` and a seeded generator
+    pub fn verif_fit_weak_learner<M: Matrix<T>>(
+        x: &M,
+        y: &M::RowVector,
+        samples: Vec<usize>,
+        mtry: usize,
+        parameters: DecisionTreeClassifierParameters,
+        seed: u64,
+    ) -> Result<DecisionTreeClassifier<T>, Failed> {
+        use rand::SeedableRng;
+        let mut rng = rand::rngs::StdRng::seed_from_u64(seed);
+        VERIF_TREE_VARS.with(|v| v.borrow_mut().clear());
+        DecisionTreeClassifier::fit_weak_learner(x, y, samples, mtry, parameters, &mut rng)
     }
 }
 
